@@ -1,9 +1,9 @@
 #!/bin/bash
-# sweep.sh <tier> <seed...> : run all 20 checks for each seed, print one line per (check, seed)
+# sweep.sh <tier> <seed...> : run all 20 checks (or those in $CHECKS, e.g. "05 02 10") for each seed, print one line per (check, seed)
 cd "$(dirname "$0")/.."
 TIER="$1"; shift
 for SEED in "$@"; do
-  for i in 01 02 03 04 05 06 07 08 09 10 11 12 13 14 15 16 17 18 19 20; do
+  for i in ${CHECKS:-01 02 03 04 05 06 07 08 09 10 11 12 13 14 15 16 17 18 19 20}; do
     out=$(REXMON_NO_EVIDENCE=${NOEV:-1} ./check C$i --tier "$TIER" --seed "$SEED" 2>&1); rc=$?
     echo "C$i seed=$SEED rc=$rc $(echo "$out" | grep 'tier=' | sed 's/.*cases=/cases=/') $(echo "$out" | grep -c '^VIOLATION') viol $(echo "$out" | grep -m1 'INCONCLUSIVE' | cut -c1-200)"
     if [ $rc -ne 0 ]; then echo "$out" | grep "witness" | head -3 | cut -c1-600; fi
